@@ -25,6 +25,42 @@ CLAIMED = {
     },
 }
 
+def _c(text, technique, ref, note_extra=""):
+    return {"text": text, "note": TB + ("  " + note_extra if note_extra else ""), "technique": technique, "design_ref": ref}
+
+
+CLAIMED.update({
+    "C07": _c("Proof: Props/C07.v shows for all wf tiers and proper in-span regions that eraseRegion is total with an explicit result, "
+              "its label function without shrinking (blank inside, unchanged outside) and with shrinking (everything after b earlier "
+              "by exactly b-a), exact membership of entries before/after the region, the one-interval straddler, categorical and "
+              "error modes and the rejection of degenerate regions.  Implementation output is compared with model and with a "
+              "clause-by-clause oracle inside Coq; the 'never fails because of rounding' clause is decided by evaluation on decimal grids.",
+              "Coq proof (monotone-image lemma, per-entry label-function lemmas, induction) + in-Coq differential correspondence and oracle",
+              "5/C07", "The model is the single-pass form of the delete/re-insert code; its equality with the code is checked differentially only."),
+    "C08": _c("Proof: Props/C08.v shows totality and the explicit result of insertSpace on all wf tiers, the entry-level clauses for "
+              "each collision mode, the label function before and after the gap, and that eraseRegion(s,s+d,truncate,shrink) "
+              "restores span and label-at-every-time (stretch/split).  Single calls and the composition are compared with model "
+              "and oracle inside Coq on dyadic and decimal grids.",
+              "Coq proof + in-Coq differential correspondence and oracle", "5/C08"),
+    "C09": _c("Proof: Props/C09.v shows for all wf tiers that editTimestamps yields shift+drop+clip entries, is total (empty tiers "
+              "included), raises iff an entry leaves the old span in error mode, never shrinks the span, round-trips when nothing is "
+              "clipped, and appendTier's explicit result.  Implementation output and the printed/not-printed warning are compared "
+              "inside Coq; Textgrid.editTimestamps/appendTextgrid are compared tier-wise in the harness.",
+              "Coq proof + in-Coq differential correspondence and oracle", "5/C09"),
+    "C10": _c("Proof: Props/C10.v shows for all wf operands that difference is labelled exactly where A is and B is not, intersection "
+              "has one clipped a-b entry per overlapping pair and is labelled exactly where both are, union is total, well-formed and "
+              "labelled exactly where either is, and that difference and intersection partition A's labelled time.  Union label order, "
+              "mergeLabels, point union and Textgrid.mergeTiers are decided by evaluation against an independent sweep specification.",
+              "Coq proof (fold invariants over insert/erase/crop models) + in-Coq differential correspondence and oracle", "5/C10",
+              "partial: the label-order clause of union, mergeLabels and point union are evaluated, not proved."),
+    "C11": _c("Proof: Props/C11.v shows that the model of IntervalTier.insertEntry (lax crop, delete matches, append, sort, span "
+              "update) equals the collision-policy specification for every wf tier, entry and mode, that order, disjointness and the "
+              "just-enough span are re-established, and the delete clauses.  Single steps (exhaustive small scope) and histories of "
+              "up to 12 inserts/deletes are compared state by state with model and specification inside Coq.",
+              "Coq proof (sorted-permutation uniqueness, membership/disjointness) + in-Coq differential correspondence on histories", "5/C11",
+              "PointTier.insertEntry is modelled and compared, its specification is stated but not separately proved."),
+})
+
 PENDING = {}
 
 
